@@ -54,6 +54,7 @@ def run(ctx):
     import time
     from treadmill import context
     from treadmill import zknamespace as z
+    from treadmill.api import state as api_state
     from treadmill.sproc import trace as sproc_trace
     from treadmill.trace import _zk as trace_zk
     from . import c15
@@ -155,6 +156,9 @@ def run(ctx):
             populate(0)
             archiver(srv.client('archiver-0'))
             populate(1)
+            # a consumer of the finished history that follows /finished.history with a watch: the state API
+            cell_state = api_state.CellState()
+            api_state.watch_finished_history(srv.client('state-api'), cell_state)
             base = srv.snapshot()
             log0 = len(srv.log)
 
@@ -223,9 +227,27 @@ def run(ctx):
 
             # un-cut run: count the writes
             cl = srv.client('archiver')
-            archiver(cl)
+            # (the watch notifications of this pass reach the watchers afterwards, in one go: a busy consumer
+            # sees the uploads and the prunings of a pass as one change of the listing)
+            srv.sync_delivery = False
+            try:
+                archiver(cl)
+            finally:
+                srv.sync_delivery = True
+            srv.deliver()
             total = cl.writes
             archived, created = evaluate('complete-run', total, total)
+            present_f = set(srv.children(z.FINISHED_HISTORY))
+            live_f = {os.path.basename(p_) for p_ in live_sets()[1]}
+            for path, snap in sorted(archived.items()):
+                if os.path.dirname(snap) == z.FINISHED_HISTORY and os.path.basename(snap) in present_f:
+                    inst_f = os.path.basename(path)
+                    ctx.count('state_api_finished_history_checked')
+                    if inst_f not in live_f and inst_f not in cell_state.finished_history:
+                        ctx.violation('state-api-misses-archived-finished-record', '%s is archived in the present snapshot %s, the state '
+                                      'API watcher of /finished.history does not know it (%d records loaded)' % (
+                                          inst_f, snap, len(cell_state.finished_history)), case=dict(case=idx))
+                        break
             nb = len(created)
             ctx.count('batches_archived', nb)
             # no short batch: number of rows per created snapshot equals its batch size
